@@ -18,16 +18,18 @@ import (
 
 // body kinds
 const (
-	kNone         = iota // GET without a body through auth.Client.Do
-	kReader              // PUT with a *bytes.Reader (net/http derives GetBody)
-	kOneShot             // PUT with a reader that cannot be replayed (no GetBody)
-	kGetBodyErr          // PUT whose GetBody fails: cannot be replayed either
-	kManifestPush        // one-shot reader through Repository.Manifests().Push (auth client: buffered by the library)
-	kBlobReader          // Repository.Blobs().Push with a *bytes.Reader (POST, then PUT with the body)
-	kBlobOneShot         // Repository.Blobs().Push with a one-shot reader
+	kNone           = iota // GET without a body through auth.Client.Do
+	kReader                // PUT with a *bytes.Reader (net/http derives GetBody)
+	kOneShot               // PUT with a reader that cannot be replayed (no GetBody)
+	kGetBodyErr            // PUT whose GetBody fails: cannot be replayed either
+	kManifestPush          // one-shot reader through Repository.Manifests().Push (auth client: buffered by the library)
+	kBlobReader            // Repository.Blobs().Push with a *bytes.Reader (POST, then PUT with the body)
+	kBlobOneShot           // Repository.Blobs().Push with a one-shot reader
+	kOneShotChunked        // PUT with a one-shot reader of unknown length (ContentLength 0 + non-nil Body: sent chunked)
+	kGetBodyChunked        // PUT with a reader of unknown length that the caller made replayable with its own GetBody
 )
 
-var kindName = [...]string{"none", "bytes.Reader", "one-shot", "GetBody-fails", "one-shot via Manifests().Push", "Blobs().Push bytes.Reader", "Blobs().Push one-shot"}
+var kindName = [...]string{"none", "bytes.Reader", "one-shot", "GetBody-fails", "one-shot via Manifests().Push", "Blobs().Push bytes.Reader", "Blobs().Push one-shot", "one-shot unknown length", "caller GetBody unknown length"}
 
 // pol is one parameter set of the retry policy used by the scenarios.
 type pol struct {
@@ -39,6 +41,7 @@ type pol struct {
 var pols = []pol{
 	{250 * time.Millisecond, 2, 0.1, 200 * time.Millisecond, 3 * time.Second}, // the library's default parameters
 	{1 * time.Millisecond, 10, 0.5, 5 * time.Millisecond, 40 * time.Millisecond},
+	{0, 2, 0.1, 0, 0}, // every pause is exactly zero: no pacing at all, the attempt bound must still hold
 }
 
 type cfg struct {
@@ -121,7 +124,7 @@ func runCall(cf cfg, f *fake, cancelAt time.Duration, deadline bool) outcome {
 	var out outcome
 	url := "http://" + regHost + "/v2/" + repoName + "/manifests/latest"
 	switch cf.kind {
-	case kNone, kReader, kOneShot, kGetBodyErr:
+	case kNone, kReader, kOneShot, kGetBodyErr, kOneShotChunked, kGetBodyChunked:
 		var req *http.Request
 		var err error
 		switch cf.kind {
@@ -135,6 +138,11 @@ func runCall(cf cfg, f *fake, cancelAt time.Duration, deadline bool) outcome {
 		case kGetBodyErr:
 			req, err = http.NewRequestWithContext(ctx, http.MethodPut, url, bytes.NewReader(content))
 			req.GetBody = func() (io.ReadCloser, error) { return nil, errors.New("GetBody: source is gone (injected)") }
+		case kOneShotChunked:
+			req, err = http.NewRequestWithContext(ctx, http.MethodPut, url, &oneShot{bytes.NewReader(content)})
+		case kGetBodyChunked:
+			req, err = http.NewRequestWithContext(ctx, http.MethodPut, url, &oneShot{bytes.NewReader(content)})
+			req.GetBody = func() (io.ReadCloser, error) { return io.NopCloser(&oneShot{bytes.NewReader(content)}), nil }
 		}
 		if err != nil {
 			panic(err)
